@@ -1,6 +1,7 @@
 import RJson.Props.C14
 import RJson.Props.C06
 import RJson.Model.ValueReader
+import RJson.Proofs.ReaderStateSim
 /-!
 # C15 (partial) — a reused ValueReader matches a fresh one: the state that the model can carry
 
@@ -44,5 +45,42 @@ theorem stringBuf_irrelevant (data : Bytes) (old : Bytes) :
     apply Array.ext'
     simp
   rw [this]
+
+/-! ## the state that survives a call: depth, size hints, pooled children -/
+
+/-- one call on a reader at rest, in any state of its size hints and with any pool contents: the result is the one a
+    brand-new reader gives, and the reader is at rest again (depth 0) afterwards — also after an error, a
+    depth-limit exit or a handler abort -/
+theorem call_fresh (orc : Oracle) (op : VOp) (h : VRState) (hd : h.depth = 0) (tick : Nat) (data : Bytes) :
+    (sCall orc op h tick data).1 = freshCall op data ∧ (sCall orc op h tick data).2.1.depth = 0 := by
+  cases op with
+  | value =>
+    obtain ⟨a, b⟩ := ReaderState.sReadValue_eq orc h hd tick data
+    exact ⟨a, by show (sReadValue orc h tick data).2.1.depth = 0; rw [b]; exact hd⟩
+  | object => exact ReaderState.sReadObject_eq orc h hd tick data
+  | array => exact ReaderState.sReadArray_eq orc h hd tick data
+
+/-- **every history of calls on one reader**: each result equals what a brand-new reader returns for that input -/
+theorem history_fresh (orc : Oracle) : ∀ (ops : List (VOp × Bytes)) (h : VRState) (tick : Nat), h.depth = 0 →
+    (runHistory orc h tick ops).1 = ops.map (fun o => freshCall o.1 o.2) ∧ (runHistory orc h tick ops).2.1.depth = 0 := by
+  intro ops
+  induction ops with
+  | nil => intro h tick hd; exact ⟨rfl, hd⟩
+  | cons o rest ih =>
+    intro h tick hd
+    obtain ⟨op, data⟩ := o
+    obtain ⟨a, b⟩ := call_fresh orc op h hd tick data
+    simp only [runHistory, List.map_cons]
+    generalize sCall orc op h tick data = c at a b
+    obtain ⟨r, h', tick'⟩ := c
+    simp only [] at a b ⊢
+    obtain ⟨c1, c2⟩ := ih h' tick' b
+    generalize runHistory orc h' tick' rest = rr at c1 c2
+    obtain ⟨rs, hf, tf⟩ := rr
+    simp only [] at c1 c2 ⊢
+    exact ⟨by rw [a, c1], c2⟩
+
+/-- non-vacuity: a reader with stale hints and a pool full of readers with stale depths -/
+example : ({ depth := 0, newMapSize := 7, lastMapSize := 30000, maxMapSize := 12, newSliceSize := 3, lastSliceSize := 99 } : VRState).depth = 0 := rfl
 
 end RJson.C15
